@@ -14,12 +14,15 @@ RUN = "Run_C08"
 THEOREMS = "Props/C08.v"
 ANCHORS = [("pipefunc/map/_mapspec.py",
             ["shape_to_strides", "ArraySpec", "MapSpec", "_shape_to_key", "_parse_index_string",
-             "_parse_indexed_arrays", "_validate_shapes", "_get_common_dim", "_get_output_dim"]),
+             "_parse_indexed_arrays", "_validate_shapes", "_get_common_dim", "_get_output_dim",
+             "validate_consistent_axes", "mapspec_axes", "mapspec_dimensions"]),
            ("pipefunc/map/_storage_array/_base.py", ["select_by_mask", "iterate_shape_indices"]),
            ("pipefunc/map/_shapes.py", ["external_shape_from_mask", "internal_shape_from_mask"])]
 RULE = ("random well-formed MapSpecs (<=3 inputs, <=2 outputs, <=4 index names, rank<=3, ':' axes, scoped names, "
         "random whitespace) x shapes with sizes 0..4 x ALL linear indices, direct constructor calls, rename/add_axes, "
-        "and malformed strings from mutation operators; direct calls of shape_to_strides / _shape_to_key / "
+        "and malformed strings from mutation operators; lists of 1..4 MapSpecs sharing 2..5 array names (consistent, "
+        "other rank / other index name in one occurrence, ':'-only dimensions) through validate_consistent_axes / "
+        "mapspec_axes / mapspec_dimensions; direct calls of shape_to_strides / _shape_to_key / "
         "select_by_mask / external_shape_from_mask / internal_shape_from_mask on random shapes (sizes 0..4, rank <= 4), "
         "masks and tuples (exact, too short, too long); plus the translator obligations: these five functions and "
         "MapSpec.output_key / input_keys are re-translated from the source into coq/gen/Gen_Index.v and "
@@ -84,6 +87,8 @@ def emit_case(c) -> str:
         raise ValueError(f)
     if k == "gen":
         return f"(CGen {cstr(c['fn'])})"
+    if k == "axes":
+        return f"(CAxes {clist([cpair(_raw_lit(i), _raw_lit(o)) for i, o in c['specs']])})"
     raise ValueError(k)
 
 
@@ -251,6 +256,16 @@ def run_impl(c):
         return run_gen(c)
     if k == "idx":
         return run_idx(c)
+    if k == "axes":
+        from pipefunc.map._mapspec import mapspec_axes, mapspec_dimensions, validate_consistent_axes
+
+        try:
+            ms = [_mk(i, o) for i, o in c["specs"]]
+        except Exception as e:  # noqa: BLE001
+            return ["bad-case", Err(e)]
+        return [_res(lambda: validate_consistent_axes(ms) or []),
+                [[n, list(ax)] for n, ax in mapspec_axes(ms).items()],
+                [[n, int(r)] for n, r in mapspec_dimensions(ms).items()]]
     if k == "parse":
         return _res(lambda: _ms_obs(MapSpec.from_string(c["s"])))
     if k == "build":
@@ -431,10 +446,46 @@ def gen_idx(rng):
     return {"kind": "idx", "f": f, "sh": [rng.randint(0, 9) for _ in range(k)], "mask": mask}
 
 
+def gen_axes(rng):
+    """A list of MapSpecs sharing array names (as the functions of one pipeline do): each array has a rank and, per
+    dimension, an index name; every occurrence writes the name or ':' (inputs only); faults: another rank, another name
+    at one position of one occurrence."""
+    arrays = {}
+    names = rng.sample(NAMES, rng.randint(2, 5))
+    for nm in names:
+        r = rng.randint(1, 3)
+        arrays[nm] = rng.sample(INDICES, r)
+    specs = []
+    for _ in range(rng.randint(1, 4)):
+        out = rng.choice(names)
+        oax = list(arrays[out])
+        ins = []
+        for nm in rng.sample([x for x in names if x != out], rng.randint(0, min(3, len(names) - 1))):
+            ax = [a if (a in oax and rng.random() < 0.7) else None for a in arrays[nm]]
+            ins.append([nm, ax])
+        specs.append([ins, [[out, oax]]])
+    r = rng.random()
+    if r < 0.3 and specs:
+        # inconsistent on purpose
+        i, o = rng.choice(specs)
+        tgt = rng.choice(i + o)
+        if rng.random() < 0.5:
+            tgt[1] = tgt[1] + [None] if tgt in i else tgt[1][:-1] or tgt[1]
+        else:
+            k = rng.randrange(len(tgt[1]))
+            if tgt in i:
+                oax = o[0][1]
+                other = [a for a in oax if a != tgt[1][k] and a not in tgt[1]]
+                if other:
+                    tgt[1][k] = rng.choice(other)
+    return {"kind": "axes", "specs": specs}
+
+
 def generate(rng, tier, mult):
     n = (250 if tier == "quick" else 1500) * mult
     cases = [{"kind": "gen", "fn": fn} for fn in OBLIGATION_THEOREM]
     for _ in range(n):
+        cases.append(gen_axes(rng))
         cases.append(gen_idx(rng))
         cases.append(gen_idx(rng))
         ins, outs = gen_wf(rng, allow_dup=rng.random() < 0.15)
@@ -507,12 +558,14 @@ def nontrivial_key(c):
     k = c["kind"]
     if k == "gen":
         return (k, c["fn"])
+    if k == "axes":
+        return (k, c["specs"]) if len(c["specs"]) >= 2 else None
     if k == "idx":
         big = len(c.get("sh") or c.get("mask") or []) >= 2
         return (k, c["f"], c.get("sh"), c.get("n"), c.get("mask"), c.get("e"), c.get("i")) if big else None
     if k == "parse":
         return (k, c["s"]) if ("," in c["s"] or ":" in c["s"]) else None
-    idx = {a for _, ax in c["i"] + c["o"] for a in ax}
+    idx = {a for _, ax in c["i"] + c["o"] for a in ax}   # noqa: C416
     if len(idx - {None}) >= 2 or None in idx:
         return (k, c["i"], c["o"], c.get("sh"), c.get("ishapes"), c.get("internal"), c.get("ren"), c.get("ax"))
     return None
@@ -546,6 +599,14 @@ def finding_id(c, impl_obs, kind):
 def shrink(c):
     out = []
     if c["kind"] in ("gen", "idx"):
+        return out
+    if c["kind"] == "axes":
+        sp = c["specs"]
+        for j in range(len(sp)):
+            out.append({"kind": "axes", "specs": sp[:j] + sp[j + 1:]})
+        for j, (i, o) in enumerate(sp):
+            for q in range(len(i)):
+                out.append({"kind": "axes", "specs": sp[:j] + [[i[:q] + i[q + 1:], o]] + sp[j + 1:]})
         return out
     if c["kind"] == "parse":
         t = c["s"]
